@@ -1,8 +1,12 @@
 package props
 
 import (
+	"bytes"
+	"encoding/json"
 	"fmt"
+	"strings"
 	"testing"
+	"verif/harness/run"
 
 	"verif/harness/ast"
 	"verif/harness/gen"
@@ -25,6 +29,10 @@ func c07Doc(t *rapid.T) *jsonx.Val {
 		}
 		o := jsonx.VObj()
 		keys := []string{"b", "a", "c"}
+		if rapid.IntRange(0, 3).Draw(t, "numerickeys") == 0 {
+			// different keys that read as the same number: still one deterministic order
+			keys = []string{"1", "1.0", "01"}
+		}
 		for j, m := 0, rapid.IntRange(0, 3).Draw(t, "nkeys"); j < m; j++ {
 			o.Members = append(o.Members, jsonx.Member{Key: keys[j], Val: jsonx.VNum(float64(j))})
 		}
@@ -85,6 +93,13 @@ func genC07(t *rapid.T, maxDepth int) (*DCase, map[string]bool) {
 		items = append(items, ast.Rule("pattern", nil, g.RuleBody(rapid.IntRange(1, 5).Draw(t, "rbody"))))
 	}
 	items = append(items, ast.Rule("ENDFILE", nil, ast.Block(ast.Print(ast.Str("endfile")))))
+	if rapid.IntRange(0, 3).Draw(t, "exitinend") == 0 {
+		// exit inside loops in an END rule that is not the last one: no further rule runs
+		items = append(items, ast.Rule("END", nil, ast.Block(ast.Print(ast.Str("end-first")),
+			ast.ForIn("ev", "", ast.Arr(ast.Num("1"), ast.Num("2")), ast.Block(ast.If(ast.Bin("==", ast.Id("ev"), ast.Num(fmt.Sprint(rapid.IntRange(1, 3).Draw(t, "exitat")))), ast.Block(ast.Exit())), ast.Print(ast.Str("end-loop"), ast.Id("ev")))),
+			ast.Print(ast.Str("end-first-done")))))
+		g.Labels["exit-in-loop"] = true
+	}
 	items = append(items, ast.Rule("END", nil, ast.Block(ast.Print(ast.Str("end")))))
 	docs := []string{gen.Compact(c07Doc(t))}
 	if rapid.IntRange(0, 2).Draw(t, "moreroots") == 0 {
@@ -120,7 +135,24 @@ func TestC07(t *testing.T) {
 		"structured programs: nesting (depth <= 4, 6 thorough) of if / if-else / else-if chains / dangling else / while / three-clause for (post-expression traced through a function; post-expression or condition calling a function that executes next or exit at a given step) / for-in over arrays, objects and strings (empty and multi-byte included) / blocks, with break, continue, return (from loops and ifs), next and exit at arbitrary positions, in pattern rules and in functions; conditions and bounds read a generated document; every statement position prints a trace line with the loop variables. Expected trace from refjq (DESIGN.md 4.4). Non-trivial: break/continue in a nested loop, return from inside a loop, next/exit inside a loop or function, a dangling else, for-in over an object with >= 2 keys or over a multi-byte string. distinct = distinct (program, input).")
 	defer rec.Finish()
 	rec.Assume("refjq's statement semantics are the documented ones (DESIGN.md 4.4); object key order is accepted in any order, each key exactly once")
-	rec.Replayer("trace", replayDiff(false))
+	rec.Replayer("trace", func(raw json.RawMessage) error {
+		if err := replayDiff(false)(raw); err != nil {
+			return err
+		}
+		var c DCase
+		if err := json.Unmarshal(raw, &c); err != nil {
+			return err
+		}
+		// (object key order: the same trace every time)
+		src := c.Source()
+		first := run.InProc(src, c.inFiles(), nil, run.Opts{Budget: implBudget})
+		for rep := 0; rep < 12; rep++ {
+			if o := run.InProc(src, c.inFiles(), nil, run.Opts{Budget: implBudget}); !bytes.Equal(o.Stdout, first.Stdout) {
+				return fmt.Errorf("two runs of the same program over the same input print different traces\n%s\n%s", clip(string(first.Stdout)), clip(string(o.Stdout)))
+			}
+		}
+		return nil
+	})
 	if rec.ReplayOnly() {
 		return
 	}
@@ -135,6 +167,16 @@ func TestC07(t *testing.T) {
 		for l := range labels {
 			ls = append(ls, l)
 		}
-		runDiff(rec, rt, "trace", c, false, func(d *diffResult) bool { return c07Nontrivial(labels, d) }, ls...)
+		d := runDiff(rec, rt, "trace", c, false, func(d *diffResult) bool { return c07Nontrivial(labels, d) }, ls...)
+		// the order of an object's keys is the same order every time the program runs
+		if d.Verdict == "pass" && strings.Contains(c.Files[0].Docs[0], `"1.0"`) {
+			for rep := 0; rep < 4; rep++ {
+				o := run.InProc(d.Src, c.inFiles(), nil, run.Opts{Budget: implBudget})
+				if !bytes.Equal(o.Stdout, d.Impl.Stdout) {
+					rec.Pending("trace", c, d.Src, "two runs of the same program over the same input print different traces (object key order)")
+					rt.Fatalf("two runs of the same program differ:\n%s\n%s", clip(string(d.Impl.Stdout)), clip(string(o.Stdout)))
+				}
+			}
+		}
 	})
 }
